@@ -588,7 +588,9 @@ ABTU_ret_err static int task_create(ABTI_global *p_global, ABTI_local *p_local,
 
     p_newtask->p_last_xstream = NULL;
     p_newtask->p_parent = NULL;
+    ABTI_VERIF_BEGIN();
     ABTD_atomic_relaxed_store_int(&p_newtask->state, ABT_THREAD_STATE_READY);
+    ABTI_VERIF_END(ABTI_VEV_UNIT_INIT, p_newtask, refcount ? ABTI_THREAD_TYPE_NAMED : 0, p_pool);
     ABTD_atomic_relaxed_store_uint32(&p_newtask->request, 0);
     p_newtask->f_thread = task_func;
     p_newtask->p_arg = arg;
